@@ -34,8 +34,16 @@ def dpow(b, e):
 
 
 def near_int(x):
+    """within 1e-9 of an integer but not (to 1e-35) an integer: the value of ceil/floor is numerically fragile"""
     r = x.to_integral_value(rounding=ROUND_HALF_EVEN)
-    return abs(x - r) < EPS * max(Decimal(1), abs(x))
+    d = abs(x - r)
+    return Decimal("1e-35") <= d < EPS * max(Decimal(1), abs(x))
+
+
+def snap(x):
+    """a value that is an integer to 35 digits is that integer (ln 256 / ln 2 = 8 exactly in the published formula)"""
+    r = x.to_integral_value(rounding=ROUND_HALF_EVEN)
+    return r if abs(x - r) < Decimal("1e-35") else x
 
 
 def dceil(x):
@@ -126,13 +134,13 @@ def tb_consts(algo, nu, rho, rounds=None, c=None, delta=None, bound=None, H=48, 
             x = (ln(rounds) / 2 - ln(1 / nu)) / ln(1 / rho)
             if near_int(x):
                 out["amb"] = 1
-            tabs["dbound"] = dceil(x)
+            tabs["dbound"] = dceil(snap(x))
         else:
             c_, delta_ = D(c), D(delta)
             c1 = dpow(rho / (3 * nu), Decimal(1) / 8)
             if c1 * delta_ >= Decimal("0.5"):
                 return None
-            c2l, c2ls, b3, tau = [], [], [], []
+            c2l, c2ls, b3, tau, tauy = [], [], [], [], []
             for k in range(KE + 1):
                 dt = c1 * delta_ / (1 << k)
                 L = (1 / dt).ln()
@@ -146,6 +154,7 @@ def tb_consts(algo, nu, rho, rounds=None, c=None, delta=None, bound=None, H=48, 
                     if bb >= Decimal(15) * 10 ** 8:
                         ok = False
                     b3.append(int(bb.to_integral_value(rounding=ROUND_HALF_EVEN)))
+                    tauy.append([min(1500000000, int(v * dpow(rho, -2 * h) / (nu * nu) * S)) if v * dpow(rho, -2 * h) / (nu * nu) * S < 1500000000 else 1500000000 for h in range(H + 1)])
                 row = [0]
                 for h in range(1, H + 1):
                     t = v * dpow(rho, -2 * h) / (nu * nu)
@@ -158,7 +167,7 @@ def tb_consts(algo, nu, rho, rounds=None, c=None, delta=None, bound=None, H=48, 
                 # 2*var*c2ls must fit: var <= rmax^2 S
                 if 2 * (rmax * rmax * S + 1) * max(c2ls) >= 2 ** 31 - 1:
                     ok = False
-                tabs.update({"c2ls": c2ls, "b3": b3, "vmin": fxr(Decimal("0.001"), S), "nb": [fxr(3 * D(bound) * nu * dpow(rho, h), S) for h in range(H + 1)]})
+                tabs.update({"c2ls": c2ls, "b3": b3, "vmin": fxr(Decimal("0.001"), S), "nb": [fxr(3 * D(bound) * nu * dpow(rho, h), S) for h in range(H + 1)], "tauy": tauy, "sexp": Sexp})
         if ok:
             out.update(tabs)
             out.update({"S": S, "RU": RU, "nurho": nurho})
